@@ -1852,6 +1852,11 @@ where
                 }
             }
             Message::Subscribe(subscribe) => {
+                // An inverted time range is a protocol violation; the gossip store
+                // can't be queried with it.
+                if *subscribe.since > *subscribe.until {
+                    return Err(session::Error::Misbehavior);
+                }
                 // Filter announcements by interest.
                 match self
                     .db
